@@ -1,6 +1,677 @@
-//! stub (engine under construction)
+//! C12: the bundled solution checker accepts valid solver outputs and rejects single-breach mutants.
+//!
+//! Positive oracle: a solver output for which the reference model R reports no finding at all must
+//! be accepted. Negative oracle: a mutant is asserted only when R (or, for relations, the
+//! construction itself) certifies that the injected breach is genuine.
+
+use super::common::{fmt_time, parse_time};
+use super::e2e::{read_core, solve_to_solution, tolerance};
+use super::pgen::*;
+use super::refmodel;
 use crate::fw::*;
+use proptest::prelude::*;
+use serde::{Deserialize, Serialize};
+use serde_json::json;
+use std::collections::BTreeMap;
+use std::sync::Arc;
+use vrp_core::models::Problem as CoreProblem;
+use vrp_pragmatic::checker::CheckerContext;
+use vrp_pragmatic::format::problem as api;
+use vrp_pragmatic::format::solution as sol;
+
+const PROPERTY: &str = "C12";
+
+#[derive(Clone, Debug, Serialize, Deserialize)]
+pub struct CheckerCase {
+    pub spec: ProblemSpec,
+    pub config: ConfigSpec,
+    /// magnitude of time / distance shifts (>= 2: the checker documents a tolerance of 1)
+    pub delta: u16,
+}
+
+type Outcome = Result<Result<(), Vec<String>>, String>;
+
+/// Runs the checker exactly as vrp-cli's `check_pragmatic_solution` does (core problem read from the same document).
+fn run_checker(core: &Arc<CoreProblem>, p: &api::Problem, m: &[api::Matrix], s: &sol::Solution) -> Outcome {
+    guard(|| CheckerContext::new(core.clone(), p.clone(), Some(m.to_vec()), s.clone()).and_then(|ctx| ctx.check()).map_err(|e| e.iter().map(|x| x.to_string()).collect()))
+}
+
+/// Strips quoted values, everything after the first colon and digits: the rest names the rule.
+fn normalise(msg: &str) -> String {
+    let mut out = String::new();
+    let mut prev = ' ';
+    let mut quoted = false;
+    for c in msg.chars() {
+        if quoted {
+            quoted = c != '\'';
+        } else if c == '\'' && (prev == ' ' || prev == ':') {
+            quoted = true;
+        } else {
+            out.push(c);
+        }
+        prev = c;
+    }
+    let out = out.split(':').next().unwrap_or("").split(", expected").next().unwrap_or("");
+    let out: String = out.chars().map(|c| if c.is_ascii_digit() { '#' } else { c }).collect();
+    out.split_whitespace().collect::<Vec<_>>().join(" ").chars().take(70).collect()
+}
+
+fn is_customer(a: &sol::Activity) -> bool {
+    matches!(a.activity_type.as_str(), "pickup" | "delivery" | "service" | "replacement")
+}
+
+fn shifted(s: &str, d: i64) -> String {
+    parse_time(s).map(|t| fmt_time(t + d)).unwrap_or_else(|| s.to_string())
+}
+
+fn pt(s: &mut sol::Solution, ti: usize, si: usize) -> &mut sol::PointStop {
+    match &mut s.tours[ti].stops[si] {
+        sol::Stop::Point(p) => p,
+        _ => panic!("harness: transit stops are not generated"),
+    }
+}
+
+fn doc(p: &api::Problem, m: &[api::Matrix], s: &sol::Solution) -> String {
+    json!({"problem": p, "matrices": m, "solution": s}).to_string()
+}
+
+fn rule_in(rule: &str, family: &[&str]) -> bool {
+    family.iter().any(|f| f.strip_suffix('*').map_or(rule == *f, |pre| rule.starts_with(pre)))
+}
+
+/// Removes an activity; a stop left without activities disappears with it.
+fn remove_activity(s: &mut sol::Solution, ti: usize, si: usize, ai: usize) -> sol::Activity {
+    let (loc, time) = {
+        let p = pt(s, ti, si);
+        (p.location.clone(), sol::Interval { start: p.time.arrival.clone(), end: p.time.departure.clone() })
+    };
+    let mut a = pt(s, ti, si).activities.remove(ai);
+    a.location.get_or_insert(loc);
+    a.time.get_or_insert(time);
+    if pt(s, ti, si).activities.is_empty() {
+        s.tours[ti].stops.remove(si);
+    }
+    a
+}
+
+/// Adds an activity to the first stop after the departure stop of a tour (before a closing arrival).
+fn add_activity(s: &mut sol::Solution, ti: usize, a: sol::Activity) {
+    let si = 1.min(s.tours[ti].stops.len() - 1);
+    let acts = &mut pt(s, ti, si).activities;
+    let at = if acts.last().is_some_and(|l| l.activity_type == "arrival") { acts.len() - 1 } else { acts.len() };
+    acts.insert(at, a);
+}
+
+fn unassigned_entry(id: &str) -> sol::UnassignedJob {
+    sol::UnassignedJob { job_id: id.to_string(), reasons: vec![sol::UnassignedJobReason { code: "NO_REASON_FOUND".into(), description: "unknown".into(), details: None }] }
+}
+
+struct Env<'a> {
+    problem: &'a api::Problem,
+    matrices: &'a [api::Matrix],
+    core: Arc<CoreProblem>,
+    base: &'a sol::Solution,
+    tol: i64,
+    case_hash: u64,
+    stats: &'a Stats,
+}
+
+impl Env<'_> {
+    fn resolve<'b>(&'b self, name: &str, p2: Option<&'b api::Problem>) -> Option<(&'b api::Problem, Arc<CoreProblem>)> {
+        match p2 {
+            None => Some((self.problem, self.core.clone())),
+            Some(p) => match read_core(p, self.matrices) {
+                Ok(core) => Some((p, core)),
+                Err(_) => {
+                    self.stats.class(&format!("{name}.problem_variant_unreadable"));
+                    None
+                }
+            },
+        }
+    }
+
+    /// Positive oracle on (P', S'): asserted only when R has no finding at all.
+    fn accept(&self, name: &str, p2: Option<&api::Problem>, s: &sol::Solution) -> Result<bool, Failure> {
+        let st = self.stats;
+        let Some((p, core)) = self.resolve(&format!("pos.{name}"), p2) else { return Ok(false) };
+        let verdict = refmodel::evaluate(p, self.matrices, s, self.tol);
+        if !verdict.findings.is_empty() {
+            st.class(&format!("pos.{name}.skipped_r_findings"));
+            for f in verdict.findings.iter() {
+                st.class(&format!("pos.{name}.r_finding.{}", f.rule));
+            }
+            return Ok(false);
+        }
+        st.eval();
+        match run_checker(&core, p, self.matrices, s) {
+            Ok(Ok(())) => {
+                st.class(&format!("pos.{name}.accepted"));
+                Ok(true)
+            }
+            Ok(Err(errs)) => {
+                let sig = format!("checker:rejects-valid:{}", normalise(&errs[0]));
+                if known_open(PROPERTY, &sig) {
+                    st.known_hit(&sig);
+                    st.class(&format!("pos.{name}.rejected_known"));
+                    return Ok(false);
+                }
+                Err(Failure::new(sig, format!("[{name}] R has no finding, checker rejects with: {errs:?}\n--- document:\n{}", doc(p, self.matrices, s))))
+            }
+            Err(panic) => Err(Failure::new(format!("checker:panic:{}", panic_site(&panic)), format!("[{name}] checker panicked on a valid solution: {panic}\n--- document:\n{}", doc(p, self.matrices, s)))),
+        }
+    }
+
+    /// Negative oracle. `family` = R rules that certify the breach; `None` = certified by construction.
+    fn breach(&self, name: &str, site: &str, far: bool, p2: Option<&api::Problem>, s: &sol::Solution, family: Option<&[&str]>) -> Check {
+        let st = self.stats;
+        st.class(&format!("mut.{name}.applied"));
+        let Some((p, core)) = self.resolve(&format!("mut.{name}"), p2) else { return Ok(()) };
+        let mut why = String::from("by construction");
+        if let Some(family) = family {
+            let verdict = refmodel::evaluate(p, self.matrices, s, self.tol);
+            match verdict.findings.iter().find(|f| rule_in(&f.rule, family)) {
+                Some(f) => why = format!("R: [{}] {}", f.rule, f.detail),
+                None => {
+                    st.class(&format!("mut.{name}.not_certified"));
+                    return Ok(());
+                }
+            }
+        }
+        st.class(&format!("mut.{name}.certified"));
+        st.eval();
+        if far {
+            st.class("nontrivial.mutant_far_site");
+            st.nontrivial(mix(self.case_hash, hash_str(&format!("{name}@{site}"))));
+        }
+        match run_checker(&core, p, self.matrices, s) {
+            Ok(Err(errs)) => {
+                st.class(&format!("mut.{name}.rejected"));
+                st.class(&format!("mut.{name}.rejected_as.{}", normalise(&errs[0])));
+                Ok(())
+            }
+            Ok(Ok(())) => {
+                let sig = format!("checker:accepts-breach:{name}");
+                if known_open(PROPERTY, &sig) {
+                    st.known_hit(&sig);
+                    st.class(&format!("mut.{name}.accepted_known"));
+                    return Ok(());
+                }
+                Err(Failure::new(sig, format!("mutation {name} at {site} is a genuine breach ({why}) but check() returned Ok\n--- document:\n{}", doc(p, self.matrices, s))))
+            }
+            Err(panic) => Err(Failure::new(format!("checker:panic:{}", panic_site(&panic)), format!("mutation {name} at {site}: checker panicked: {panic}\n--- document:\n{}", doc(p, self.matrices, s)))),
+        }
+    }
+
+    /// Behaviour the statement does not pin down (cost, time split, type id): observed and counted only.
+    fn observe(&self, name: &str, s: &sol::Solution, family: &[&str]) {
+        if refmodel::evaluate(self.problem, self.matrices, s, self.tol).findings.iter().any(|f| rule_in(&f.rule, family)) {
+            let res = match run_checker(&self.core, self.problem, self.matrices, s) {
+                Ok(Ok(())) => "accepted",
+                Ok(Err(_)) => "rejected",
+                Err(_) => "panicked",
+            };
+            self.stats.class(&format!("unspecified.{name}.{res}"));
+        }
+    }
+
+    fn vehicle_index(&self, tour: &sol::Tour) -> Option<usize> {
+        self.problem.fleet.vehicles.iter().position(|v| v.type_id == tour.type_id)
+    }
+
+    /// job id -> (tour, stop, activity) positions of its customer activities
+    fn assigned(&self) -> BTreeMap<String, Vec<(usize, usize, usize)>> {
+        let mut out: BTreeMap<String, Vec<(usize, usize, usize)>> = BTreeMap::new();
+        for (ti, tour) in self.base.tours.iter().enumerate() {
+            for (si, stop) in tour.stops.iter().enumerate() {
+                for (ai, a) in stop.activities().iter().enumerate().filter(|(_, a)| is_customer(a)) {
+                    out.entry(a.job_id.clone()).or_default().push((ti, si, ai));
+                }
+            }
+        }
+        out
+    }
+
+    // ------------------------------------------------------------------ mutations of S (and of limits in P)
+
+    fn stop_mutations(&self, delta: i64) -> Check {
+        let base = self.base;
+        for (ti, tour) in base.tours.iter().enumerate() {
+            let vt = self.vehicle_index(tour).map(|i| &self.problem.fleet.vehicles[i]);
+            for si in 0..tour.stops.len() {
+                let (far, first, site) = (ti > 0 || si >= 2, si == 0, format!("tour {ti} stop {si}"));
+                let width = tour.stops[si].load().len();
+                let d = (ti + si) % width.max(1);
+                let with_load = |f: &dyn Fn(&mut i32)| {
+                    let mut s = base.clone();
+                    let load = &mut pt(&mut s, ti, si).load;
+                    load.resize(width.max(d + 1), 0);
+                    f(&mut load[d]);
+                    s
+                };
+                self.breach("load.plus1", &site, far, None, &with_load(&|l| *l += 1), Some(&["stop-load"]))?;
+                self.breach("load.minus1", &site, far, None, &with_load(&|l| *l -= 1), Some(&["stop-load"]))?;
+                if let Some(cap) = vt.and_then(|v| v.capacity.get(d).copied()) {
+                    self.breach("load.above-capacity", &site, far, None, &with_load(&|l| *l = cap + 1), Some(&["stop-load"]))?;
+                }
+                for (sign, later) in [(1, true), (-1, false)] {
+                    let dv = sign * delta;
+                    let mut s = base.clone();
+                    let t = &mut pt(&mut s, ti, si).time;
+                    t.arrival = shifted(&t.arrival, dv);
+                    let name = if first { "arrival.first-stop" } else if later { "arrival.later" } else { "arrival.earlier" };
+                    self.breach(name, &site, far, None, &s, Some(&["stop-arrival"]))?;
+
+                    let mut s = base.clone();
+                    let t = &mut pt(&mut s, ti, si).time;
+                    t.departure = shifted(&t.departure, dv);
+                    let name = if first { "departure.first-stop" } else if later { "departure.later" } else { "departure.earlier" };
+                    self.breach(name, &site, far, None, &s, Some(if first { &["stop-departure", "stop-arrival"] } else { &["stop-departure"] }))?;
+
+                    let mut s = base.clone();
+                    pt(&mut s, ti, si).distance += dv;
+                    let name = if first { "distance.first-stop" } else if later { "distance.more" } else { "distance.less" };
+                    self.breach(name, &site, far, None, &s, Some(&["stop-distance"]))?;
+                }
+            }
+        }
+        Ok(())
+    }
+
+    fn job_mutations(&self) -> Check {
+        let base = self.base;
+        let tours = base.tours.len();
+        for (id, places) in self.assigned().iter() {
+            let (ti, si0, ai0) = places[0];
+            let far = ti > 0 || si0 >= 2;
+            let site = format!("job {id} (tour {ti} stop {si0})");
+            for &(_, si, ai) in places.iter() {
+                let (far, site) = (ti > 0 || si >= 2, format!("job {id} tour {ti} stop {si} activity {ai}"));
+                let mut s = base.clone();
+                pt(&mut s, ti, si).activities[ai].job_id = "ghost_job".to_string();
+                self.breach("job.unknown-id", &site, far, None, &s, Some(&["unknown-job"]))?;
+
+                let mut s = base.clone();
+                let copy = pt(&mut s, ti, si).activities[ai].clone();
+                pt(&mut s, ti, si).activities.insert(ai + 1, copy);
+                self.breach("activity.duplicated", &site, far, None, &s, Some(&["activity-matches-no-task"]))?;
+
+                if places.len() >= 2 && tours >= 2 {
+                    let mut s = base.clone();
+                    let a = remove_activity(&mut s, ti, si, ai);
+                    add_activity(&mut s, (ti + 1) % tours, a);
+                    self.breach("job.task-moved-to-other-tour", &site, true, None, &s, Some(&["job-in-two-tours"]))?;
+                }
+            }
+            let mut s = base.clone();
+            s.unassigned.get_or_insert_with(Vec::new).push(unassigned_entry(id));
+            self.breach("job.assigned-and-unassigned", &site, far, None, &s, Some(&["assigned-and-unassigned"]))?;
+
+            let mut s = base.clone();
+            for stop in s.tours[ti].stops.iter_mut() {
+                stop.activities_mut().retain(|a| !(is_customer(a) && a.job_id == *id));
+            }
+            s.tours[ti].stops.retain(|stop| !stop.activities().is_empty());
+            self.breach("job.dropped-from-tour", &site, far, None, &s, Some(&["job-lost"]))?;
+
+            for tj in (0..tours).filter(|tj| *tj != ti) {
+                let mut s = base.clone();
+                let mut a = pt(&mut s, ti, si0).activities[ai0].clone();
+                let p = pt(&mut s, ti, si0);
+                a.location.get_or_insert(p.location.clone());
+                a.time.get_or_insert(sol::Interval { start: p.time.arrival.clone(), end: p.time.departure.clone() });
+                add_activity(&mut s, tj, a);
+                self.breach("job.copied-to-other-tour", &format!("{site} -> tour {tj}"), true, None, &s, Some(&["job-in-two-tours"]))?;
+            }
+            // pickup after delivery: exchange the roles (type + tag) of a pickup and a later delivery of the job
+            let kind = |k: usize| base.tours[ti].stops[places[k].1].activities()[places[k].2].activity_type.as_str();
+            for a in (0..places.len()).filter(|k| kind(*k) == "pickup") {
+                for b in (a + 1..places.len()).filter(|k| kind(*k) == "delivery") {
+                    let mut s = base.clone();
+                    let (x, y) = (pt(&mut s, ti, places[a].1).activities[places[a].2].clone(), pt(&mut s, ti, places[b].1).activities[places[b].2].clone());
+                    let pa = &mut pt(&mut s, ti, places[a].1).activities[places[a].2];
+                    (pa.activity_type, pa.job_tag) = (y.activity_type, y.job_tag);
+                    let pb = &mut pt(&mut s, ti, places[b].1).activities[places[b].2];
+                    (pb.activity_type, pb.job_tag) = (x.activity_type, x.job_tag);
+                    self.breach("pickup-after-delivery", &site, far, None, &s, Some(&["pickup-after-delivery"]))?;
+                }
+            }
+        }
+        // unassigned list
+        let entries = base.unassigned.clone().unwrap_or_default();
+        for (k, u) in entries.iter().enumerate() {
+            let (far, site) = (k > 0, format!("unassigned entry {k} ({})", u.job_id));
+            let mut rest = entries.clone();
+            rest.remove(k);
+            let mut s = base.clone();
+            s.unassigned = (!rest.is_empty()).then_some(rest);
+            self.breach("job.dropped-unassigned-entry", &site, far, None, &s, Some(&["job-lost"]))?;
+            let mut s = base.clone();
+            s.unassigned.as_mut().unwrap().insert(k, u.clone());
+            self.breach("unassigned.duplicate", &site, far, None, &s, Some(&["unassigned-duplicate"]))?;
+        }
+        for at_end in [false, true] {
+            let mut s = base.clone();
+            let list = s.unassigned.get_or_insert_with(Vec::new);
+            list.insert(if at_end { list.len() } else { 0 }, unassigned_entry("ghost_job"));
+            self.breach("unassigned.unknown-id", if at_end { "appended" } else { "prepended" }, at_end && !entries.is_empty(), None, &s, Some(&["unassigned-unknown"]))?;
+        }
+        Ok(())
+    }
+
+    fn tour_mutations(&self, delta: i64) -> Check {
+        let base = self.base;
+        let zero_distances = base.tours.iter().flat_map(|t| t.stops.iter()).all(|s| s.as_point().is_none_or(|p| p.distance == 0));
+        if zero_distances {
+            // documented workaround of the checker (hre format): no distance check at all when every stop distance is 0
+            self.stats.class("unspecified.all_stop_distances_zero");
+        }
+        for sign in [1i64, -1] {
+            let mut s = base.clone();
+            s.statistic.duration += sign;
+            self.breach("stat.overall-duration", "solution", false, None, &s, Some(&["overall-sum"]))?;
+            if !zero_distances {
+                let mut s = base.clone();
+                s.statistic.distance += sign * delta;
+                self.breach("stat.overall-distance", "solution", false, None, &s, Some(&["overall-sum"]))?;
+            }
+        }
+        for (ti, tour) in base.tours.iter().enumerate() {
+            let (far, site) = (ti > 0, format!("tour {ti}"));
+            let legs = tour.stops.iter().map(|s| s.activities().len()).sum::<usize>() as i64;
+            // R accepts accumulated rounding of `tol` per leg in tour totals, so the shift exceeds it
+            let big = delta.max(self.tol * legs + 1);
+            for sign in [1i64, -1] {
+                let dv = sign * big;
+                // the overall statistic is kept equal to the sum of tours: only the tour total is wrong
+                let mut s = base.clone();
+                s.tours[ti].statistic.duration += dv;
+                s.statistic.duration += dv;
+                self.breach("stat.tour-duration", &site, far, None, &s, Some(&["statistic-duration"]))?;
+                if !zero_distances {
+                    let mut s = base.clone();
+                    s.tours[ti].statistic.distance += dv;
+                    s.statistic.distance += dv;
+                    self.breach("stat.tour-distance", &site, far, None, &s, Some(&["statistic-distance"]))?;
+                }
+                let mut s = base.clone();
+                s.tours[ti].statistic.times.driving += dv;
+                s.statistic.times.driving += dv;
+                self.observe("stat.tour-driving-time", &s, &["statistic-driving"]);
+                let mut s = base.clone();
+                s.tours[ti].statistic.cost += 10. * dv as f64;
+                s.statistic.cost += 10. * dv as f64;
+                self.observe("stat.tour-cost", &s, &["statistic-cost"]);
+            }
+            let mut s = base.clone();
+            s.tours[ti].vehicle_id = "ghost_vehicle".to_string();
+            self.breach("vehicle.unknown-id", &site, far, None, &s, Some(&["unknown-vehicle"]))?;
+            let mut s = base.clone();
+            s.tours[ti].type_id = "ghost_type".to_string();
+            self.observe("vehicle.unknown-type", &s, &["unknown-vehicle-type"]);
+            for (tj, other) in base.tours.iter().enumerate().filter(|(tj, _)| *tj != ti) {
+                let mut s = base.clone();
+                (s.tours[ti].vehicle_id, s.tours[ti].type_id, s.tours[ti].shift_index) = (other.vehicle_id.clone(), other.type_id.clone(), other.shift_index);
+                self.breach("vehicle.shift-used-twice", &format!("tour {ti} renamed as tour {tj}"), true, None, &s, Some(&["vehicle-shift-used-twice"]))?;
+            }
+            self.limit_mutations(ti, tour, far, &site)?;
+            self.break_mutations(ti, tour, far)?;
+            // group split: P' puts the first customer job of this tour and of a later tour into one group
+            let first_job = |t: &sol::Tour| t.stops.iter().flat_map(|s| s.activities().iter()).find(|a| is_customer(a)).map(|a| a.job_id.clone());
+            for (tj, other) in base.tours.iter().enumerate().skip(ti + 1) {
+                if let (Some(a), Some(b)) = (first_job(tour), first_job(other)) {
+                    let mut p = self.problem.clone();
+                    p.plan.jobs.iter_mut().filter(|j| j.id == a || j.id == b).for_each(|j| j.group = Some("gsplit".to_string()));
+                    self.breach("group.split", &format!("jobs {a} (tour {ti}) and {b} (tour {tj})"), true, Some(&p), base, Some(&["group-split"]))?;
+                }
+            }
+        }
+        Ok(())
+    }
+
+    /// Lowers a limit of the tour's vehicle type in P just under the value the tour uses (and, as a
+    /// positive boundary case, to exactly that value).
+    fn limit_mutations(&self, ti: usize, tour: &sol::Tour, far: bool, site: &str) -> Check {
+        let Some(vi) = self.vehicle_index(tour) else { return Ok(()) };
+        let size = tour.stops.iter().flat_map(|s| s.activities().iter()).filter(|a| a.activity_type != "departure" && a.activity_type != "arrival").count();
+        let variant = |f: &dyn Fn(&mut api::VehicleLimits)| {
+            let mut p = self.problem.clone();
+            f(p.fleet.vehicles[vi].limits.get_or_insert(api::VehicleLimits { max_distance: None, max_duration: None, tour_size: None }));
+            p
+        };
+        if size >= 2 {
+            self.breach("limit.tour-size", site, far, Some(&variant(&|l| l.tour_size = Some(size - 1))), self.base, Some(&["tour-size"]))?;
+            self.accept("limit-exact.tour-size", Some(&variant(&|l| l.tour_size = Some(size))), self.base)?;
+        }
+        let (dist, dur) = (tour.statistic.distance, tour.statistic.duration);
+        if dist >= 2 {
+            self.breach("limit.max-distance", site, far, Some(&variant(&|l| l.max_distance = Some((dist - 1) as f64))), self.base, Some(&["max-distance"]))?;
+            self.accept("limit-exact.max-distance", Some(&variant(&|l| l.max_distance = Some(dist as f64))), self.base)?;
+        }
+        if dur >= 2 {
+            self.breach("limit.max-duration", site, far, Some(&variant(&|l| l.max_duration = Some((dur - 1) as f64))), self.base, Some(&["max-duration"]))?;
+            self.accept("limit-exact.max-duration", Some(&variant(&|l| l.max_duration = Some(dur as f64))), self.base)?;
+        }
+        // load above capacity: capacity of one dimension just under the highest load reported in the tour
+        let dims = self.problem.fleet.vehicles[vi].capacity.len();
+        let peak = |d: usize| tour.stops.iter().map(|s| s.load().get(d).copied().unwrap_or(0)).max().unwrap_or(0);
+        if let Some(d) = (0..dims).max_by_key(|d| peak(*d)).filter(|d| peak(*d) >= 1) {
+            let mut p = self.problem.clone();
+            p.fleet.vehicles[vi].capacity[d] = peak(d) - 1;
+            self.breach("capacity.lowered", &format!("tour {ti} dimension {d}"), far, Some(&p), self.base, Some(&["capacity"]))?;
+        }
+        Ok(())
+    }
+
+    /// Moves a break activity completely behind / in front of the time window of its break.
+    fn break_mutations(&self, ti: usize, tour: &sol::Tour, far: bool) -> Check {
+        let Some(shift) = self.vehicle_index(tour).and_then(|vi| self.problem.fleet.vehicles[vi].shifts.get(tour.shift_index)) else { return Ok(()) };
+        let departure = tour.stops.first().and_then(|s| parse_time(&s.schedule().departure));
+        for (si, stop) in tour.stops.iter().enumerate() {
+            for (ai, a) in stop.activities().iter().enumerate().filter(|(_, a)| a.activity_type == "break") {
+                let window = shift.breaks.iter().flatten().find_map(|b| match b {
+                    api::VehicleBreak::Optional { time, places, .. } if places.iter().any(|p| p.tag == a.job_tag) => match time {
+                        api::VehicleOptionalBreakTime::TimeWindow(w) => Some((parse_time(w.first()?)?, parse_time(w.last()?)?)),
+                        api::VehicleOptionalBreakTime::TimeOffset(o) => Some((departure? + *o.first()? as i64, departure? + *o.last()? as i64)),
+                    },
+                    _ => None,
+                });
+                let (start, end) = a.time.as_ref().map_or((&stop.schedule().arrival, &stop.schedule().departure), |t| (&t.start, &t.end));
+                let (Some((ws, we)), Some(start), Some(end)) = (window, parse_time(start), parse_time(end)) else {
+                    self.stats.class("mut.break.window_not_resolved");
+                    continue;
+                };
+                let len = (end - start).max(1);
+                for (name, from) in [("break.after-window", we + 10), ("break.before-window", ws - 10 - len)] {
+                    let mut s = self.base.clone();
+                    pt(&mut s, ti, si).activities[ai].time = Some(sol::Interval { start: fmt_time(from), end: fmt_time(from + len) });
+                    self.breach(name, &format!("tour {ti} stop {si} activity {ai}"), far || si >= 2, None, &s, Some(&["time-window", "time-window-start"]))?;
+                }
+            }
+        }
+        Ok(())
+    }
+
+    // ------------------------------------------------------------------ relations added to P (S unchanged)
+
+    fn relation_checks(&self) -> Check {
+        use api::RelationType::{Any, Sequence, Strict};
+        let base = self.base;
+        // E1203 / documentation: only jobs with one task, one place and at most one time window are supported in relations
+        let eligible = |id: &str| {
+            self.problem.plan.jobs.iter().find(|j| j.id == id).is_some_and(|j| {
+                let tasks: Vec<&api::JobTask> = [&j.pickups, &j.deliveries, &j.replacements, &j.services].into_iter().flatten().flatten().collect();
+                tasks.len() == 1 && tasks[0].places.len() == 1 && tasks[0].places[0].times.as_ref().is_none_or(|t| t.len() <= 1)
+            })
+        };
+        let with = |kind: api::RelationType, vehicle: &str, shift: usize, jobs: &[&String]| {
+            let mut p = self.problem.clone();
+            p.plan.relations = Some(vec![api::Relation { type_field: kind, jobs: jobs.iter().map(|j| j.to_string()).collect(), vehicle_id: vehicle.to_string(), shift_index: Some(shift) }]);
+            p
+        };
+        let used = |v: &str, shift: usize| base.tours.iter().any(|t| t.vehicle_id == v && t.shift_index == shift);
+        for (ti, tour) in base.tours.iter().enumerate() {
+            let (v, sh, far) = (tour.vehicle_id.as_str(), tour.shift_index, ti > 0);
+            // (position among all activities of the tour, job id) of eligible customer activities
+            let seq: Vec<(usize, &String)> = tour.stops.iter().flat_map(|s| s.activities().iter()).enumerate().filter(|(_, a)| is_customer(a) && eligible(&a.job_id)).map(|(k, a)| (k, &a.job_id)).collect();
+            self.stats.class(if seq.len() >= 2 { "rel.tour_with_two_eligible_jobs" } else { "rel.tour_with_fewer_eligible_jobs" });
+            let all: Vec<&String> = seq.iter().map(|(_, id)| *id).collect();
+            if !all.is_empty() {
+                // relations read off the solution itself must be accepted
+                self.accept("rel.any", Some(&with(Any, v, sh, &all)), base)?;
+                self.accept("rel.sequence", Some(&with(Sequence, v, sh, &all)), base)?;
+            }
+            for (k, (_, id)) in seq.iter().enumerate() {
+                let site = format!("job {id} of tour {ti} ({v} shift {sh})");
+                let far = far || k > 0;
+                // the job is locked to another vehicle (shift) than the one serving it
+                for other in base.tours.iter().filter(|o| o.vehicle_id != v) {
+                    self.breach("rel.any-other-vehicle", &format!("{site} locked to {} shift {}", other.vehicle_id, other.shift_index), true, Some(&with(Any, &other.vehicle_id, other.shift_index, &[id])), base, None)?;
+                    self.breach("rel.sequence-other-vehicle", &format!("{site} locked to {} shift {}", other.vehicle_id, other.shift_index), true, Some(&with(Sequence, &other.vehicle_id, other.shift_index, &[id])), base, None)?;
+                }
+                for vt in self.problem.fleet.vehicles.iter() {
+                    if let Some(idle) = vt.vehicle_ids.iter().find(|x| (0..vt.shifts.len()).all(|s| !used(x, s))) {
+                        self.breach("rel.any-idle-vehicle", &format!("{site} locked to idle {idle}"), far, Some(&with(Any, idle, 0, &[id])), base, None)?;
+                        self.breach("rel.strict-idle-vehicle", &format!("{site} locked to idle {idle}"), far, Some(&with(Strict, idle, 0, &[id])), base, None)?;
+                    }
+                    if vt.vehicle_ids.iter().any(|x| x == v) {
+                        for s2 in (0..vt.shifts.len()).filter(|s2| *s2 != sh) {
+                            let name = if used(v, s2) { "rel.any-other-shift-used" } else { "rel.any-other-shift-idle" };
+                            self.breach(name, &format!("{site} locked to shift {s2}"), far, Some(&with(Any, v, s2, &[id])), base, None)?;
+                        }
+                    }
+                }
+            }
+            for w in seq.windows(2) {
+                let ((ka, a), (kb, b)) = (w[0], w[1]);
+                let site = format!("jobs {a},{b} at positions {ka},{kb} of tour {ti}");
+                let far = far || ka >= 2;
+                self.breach("rel.sequence-reversed", &site, far, Some(&with(Sequence, v, sh, &[b, a])), base, None)?;
+                self.breach("rel.strict-reversed", &site, far, Some(&with(Strict, v, sh, &[b, a])), base, None)?;
+                if kb == ka + 1 {
+                    self.accept("rel.strict", Some(&with(Strict, v, sh, &[a, b])), base)?;
+                } else {
+                    // something is served between a and b: strict forbids it, sequence allows it
+                    self.breach("rel.strict-gap", &site, far, Some(&with(Strict, v, sh, &[a, b])), base, None)?;
+                }
+            }
+        }
+        Ok(())
+    }
+}
+
+pub struct CheckerProp {
+    /// false: mutations of the solution / limits; true: relations
+    pub relations: bool,
+}
+
+impl Prop for CheckerProp {
+    type Case = CheckerCase;
+    fn name(&self) -> &'static str {
+        if self.relations { "checker_relations" } else { "checker_breaches" }
+    }
+    fn strategy(&self, tier: Tier) -> BoxedStrategy<CheckerCase> {
+        (problem_spec(tier.pick(10, 16)), config_spec(30), prop_oneof![3 => Just(2u16), 1 => 3u16..=240]).prop_map(|(spec, config, delta)| CheckerCase { spec, config, delta }).boxed()
+    }
+    fn cases(&self, tier: Tier) -> u32 {
+        if self.relations { tier.pick(320, 16_000) } else { tier.pick(640, 32_000) }
+    }
+    fn shards(&self, _tier: Tier) -> u32 {
+        16
+    }
+    fn max_shrink_iters(&self) -> u32 {
+        200
+    }
+    fn check(&self, case: &CheckerCase, stats: &Stats) -> Check {
+        let rendered = render(&case.spec);
+        let (problem, matrices) = (&rendered.problem, &rendered.matrices);
+        let core = read_core(problem, matrices).map_err(|e| Failure::new("harness:generator-invalid", format!("generated problem was rejected: {e}")))?;
+        let (mut solution, _) = solve_to_solution(core.clone(), &render_config(&case.config))?;
+        solution.extras = None; // telemetry only; not read by the checker
+        let case_hash = hash_of(&format!("{case:?}"));
+        let env = Env { problem, matrices, core, base: &solution, tol: tolerance(problem), case_hash, stats };
+        let n = Prop::name(self);
+        stats.class(&format!("{n}.cases"));
+
+        // ---- positive oracle
+        let verdict = refmodel::evaluate(problem, matrices, &solution, env.tol);
+        let has = |f: &str| verdict.facts.contains(f);
+        let rich = has("reload_assigned") || has("break_assigned") || has("multi_task_assigned");
+        let accepted = env.accept("solver-output", None, &solution)?;
+        if verdict.findings.is_empty() {
+            for f in ["reload_assigned", "break_assigned", "multi_task_assigned", "multi_tour", "has_unassigned", "waiting", "scaled_profile", "open_end_tour", "shared_resource_used", "multi_window_assigned", "multi_place_assigned", "group_assigned"] {
+                if has(f) {
+                    stats.class(&format!("pos.solver-output.with.{f}"));
+                }
+            }
+            if rich {
+                stats.class("nontrivial.positive_with_reload_break_or_multi_job");
+                stats.nontrivial(case_hash);
+            }
+        }
+        stats.sample(2, || json!({"kind": n, "features": rendered.info.features, "jobs": problem.plan.jobs.len(), "tours": solution.tours.len(), "facts": verdict.facts, "r_findings": verdict.findings.len(), "accepted": accepted}));
+        if !accepted {
+            // without an accepted, R-clean baseline a rejection of a mutant proves nothing
+            stats.class(&format!("{n}.baseline_not_usable"));
+            return Ok(());
+        }
+        // ---- negative oracle
+        if self.relations {
+            env.relation_checks()
+        } else {
+            let delta = case.delta.max(2) as i64;
+            env.stop_mutations(delta)?;
+            env.job_mutations()?;
+            env.tour_mutations(delta)
+        }
+    }
+}
+
+/// Replay-only sub-check over complete documents (corpus): `expect` is "ok" or the name of the injected breach.
+#[derive(Clone, Debug, Serialize, Deserialize)]
+pub struct CheckerDocCase {
+    pub problem: api::Problem,
+    pub matrices: Vec<api::Matrix>,
+    pub solution: sol::Solution,
+    pub expect: String,
+}
+
+pub struct CheckerDocProp;
+
+impl Prop for CheckerDocProp {
+    type Case = CheckerDocCase;
+    fn name(&self) -> &'static str {
+        "checker_doc"
+    }
+    fn strategy(&self, _tier: Tier) -> BoxedStrategy<CheckerDocCase> {
+        let spec = ProblemSpec { coords: vec![(0, 0), (1, 1), (2, 2)], asym: vec![0; 9], non_metric: false, unreachable: vec![], profiles: 1, dims: 1, jobs: vec![], vehicles: vec![], objectives: 0, shared_resource_capacity: 5, features: 0 };
+        let solution = sol::Solution { statistic: Default::default(), tours: vec![], unassigned: None, violations: None, extras: None };
+        Just(CheckerDocCase { problem: render(&spec).problem, matrices: vec![], solution, expect: "ok".into() }).boxed()
+    }
+    fn cases(&self, _tier: Tier) -> u32 {
+        0
+    }
+    fn check(&self, case: &CheckerDocCase, stats: &Stats) -> Check {
+        let core = read_core(&case.problem, &case.matrices).map_err(|e| Failure::new("harness:corpus-invalid", format!("corpus problem rejected: {e}")))?;
+        stats.eval();
+        stats.class("corpus_documents_checked");
+        match (run_checker(&core, &case.problem, &case.matrices, &case.solution), case.expect.as_str()) {
+            (Err(panic), _) => Err(Failure::new(format!("checker:panic:{}", panic_site(&panic)), format!("checker panicked: {panic}"))),
+            (Ok(Ok(())), "ok") => Ok(()),
+            (Ok(Err(errs)), "ok") => Err(Failure::new(format!("checker:rejects-valid:{}", normalise(&errs[0])), format!("checker rejects a valid document: {errs:?}"))),
+            (Ok(Err(_)), _) => Ok(()),
+            (Ok(Ok(())), name) => Err(Failure::new(format!("checker:accepts-breach:{name}"), format!("checker accepts a document with the breach {name}"))),
+        }
+    }
+}
 
 pub fn property(_tier: Tier) -> PropertyDef {
-    PropertyDef { id: "STUB", level: "exploration", rule: "stub", assumptions: vec![], props: vec![], extra: None, required_classes: vec!["stub.never"] }
+    PropertyDef {
+        id: PROPERTY,
+        level: "exploration",
+        rule: "stub",
+        assumptions: vec![],
+        props: vec![Box::new(CheckerProp { relations: false }), Box::new(CheckerProp { relations: true }), Box::new(CheckerDocProp)],
+        extra: None,
+        required_classes: vec![],
+    }
 }
